@@ -175,4 +175,227 @@ Section P.
     intros v t fuel k Hg Hty Hd Hk.
     apply (spec_dec_strict v t fuel (S k) (good_ty_wfz t Hg) Hty); [lia|exact Hk|lia].
   Qed.
+
+  (* ---------- sig_read, one equation per shape of type ---------- *)
+  Lemma sig_read_num fuel s w bs :
+    scalar_width s = Some w -> sig_read parse c fuel (TS s) bs = take_n w bs.
+  Proof.
+    intro Hw. destruct fuel; destruct s; cbn [scalar_width] in Hw; try discriminate;
+      injection Hw as Hw; subst w; reflexivity.
+  Qed.
+
+  Lemma sig_read_bool fuel bs : sig_read parse c fuel (TS SBool) bs = take_n 1 bs.
+  Proof. destruct fuel; reflexivity. Qed.
+
+  Lemma sig_read_str fuel bs : sig_read parse c fuel (TS SStr) bs = string_reader c bs.
+  Proof. destruct fuel; reflexivity. Qed.
+
+  Lemma sig_read_list fuel t' bs :
+    sig_read parse c fuel (TList t') bs =
+    (do '(n, r) <- read_num 4 bs;
+     do '(d, r') <- cat_res (rep (sig_read parse c fuel t') n r); ROk (enc_u32 n ++ d, r')).
+  Proof. destruct fuel; reflexivity. Qed.
+
+  Definition sig_pair fuel tk tv : bytes -> res (bytes * bytes) :=
+    fun b => do '(kv, r2) <- pair_with (sig_read parse c fuel tk) (sig_read parse c fuel tv) b;
+             ROk (fst kv ++ snd kv, r2).
+
+  Lemma sig_read_map fuel tk tv bs :
+    sig_read parse c fuel (TMap tk tv) bs =
+    (do '(n, r) <- read_num 4 bs;
+     do '(d, r') <- cat_res (rep (sig_pair fuel tk tv) n r); ROk (enc_u32 n ++ d, r')).
+  Proof. destruct fuel; reflexivity. Qed.
+
+  Lemma sig_read_tuple fuel ts bs :
+    sig_read parse c fuel (TTuple ts) bs = cat_res (seq_with (map (sig_read parse c fuel) ts) bs).
+  Proof. destruct fuel; reflexivity. Qed.
+
+  Lemma sig_read_struct fuel n fs bs :
+    sig_read parse c fuel (TStruct n fs) bs =
+    cat_res (seq_with (map (fun f => sig_read parse c fuel (snd f)) fs) bs).
+  Proof. destruct fuel; reflexivity. Qed.
+
+  Lemma sig_read_obj fuel bs :
+    sig_read parse c fuel (TS SObject) bs = sig_read parse c fuel ty_ObjectReference bs.
+  Proof. destruct fuel; reflexivity. Qed.
+
+  Lemma sig_read_dyn f bs :
+    sig_read parse c (S f) (TS SValue) bs =
+    (do '(sg, r) <- read_str bs;
+     match parse (string_of_bytes sg) with
+     | None => RErr r
+     | Some t' =>
+         do '(d, r') <- sig_read parse c f t' r;
+         ROk ((if value_reader_no_len c then sg else enc_str sg) ++ d, r')
+     end).
+  Proof. reflexivity. Qed.
+
+  (* ---------- sig_read consumes exactly an encoding and refuses its proper prefixes ---------- *)
+  (* consumption is proved here and not taken from sig_read_spec, which needs
+     value_reader_no_len = false: that switch changes the bytes returned, not those consumed *)
+  Section SigStrict.
+    Hypothesis Hdrop : string_reader_drops_err c = false.
+
+    Lemma take_n_eats B e : eats B (take_n (List.length e)) e.
+    Proof. intros rest Hlen. exists e. apply take_n_app. Qed.
+
+    Lemma string_reader_eats B s :
+      (N.of_nat (List.length s) <= MaxStringSize)%N -> eats B (string_reader c) (enc_str s).
+    Proof.
+      intros Hs rest Hlen. exists (enc_str s). unfold string_reader. rewrite (read_str_enc s rest Hs).
+      reflexivity.
+    Qed.
+
+    Lemma string_reader_strict B s :
+      (N.of_nat (List.length s) <= MaxStringSize)%N -> strict B (string_reader c) (enc_str s).
+    Proof.
+      intros Hs k Hk HB. destruct (read_str_strict B s Hs k Hk HB) as [l Hl].
+      unfold string_reader. rewrite Hl, Hdrop. apply fails_err.
+    Qed.
+
+    Definition SQ (v : tval) : Prop :=
+      forall t fuel B, wfz t = true -> has_ty v t = true -> Nat.min (dyn_depth v) B <= fuel ->
+        eats B (sig_read parse c fuel t) (spec_enc v) /\ strict B (sig_read parse c fuel t) (spec_enc v).
+
+    Lemma sig_members {T} (proj : T -> ty) fuel B l (ts : list T) :
+      Forall SQ l -> Forall2 (fun x t => has_ty x (proj t) = true) l ts ->
+      forallb (fun t => wfz (proj t)) ts = true ->
+      Nat.min (fold_right (fun y a => Nat.max (dyn_depth y) a) 0 l) B <= fuel ->
+      all2 B (map (fun t => sig_read parse c fuel (proj t)) ts) (map spec_enc l).
+    Proof.
+      intros IH HF Hwz Hd. apply all2_of_Forall2.
+      apply (forallb_Forall2_r _ _ _ _ Hwz) in HF.
+      apply (Forall2_Forall_l _ _ _ _ (dyn_depth_members l)) in HF.
+      revert HF. apply Forall2_mp. eapply Forall_impl; [|exact IH].
+      intros x Hx t [Hdx [Hty Hw]]. apply Hx; [exact Hw|exact Hty|lia].
+    Qed.
+
+    Lemma cat_seq_eats_strict B ps es :
+      all2 B ps es ->
+      eats B (fun bs => cat_res (seq_with ps bs)) (concat es) /\
+      strict B (fun bs => cat_res (seq_with ps bs)) (concat es).
+    Proof.
+      intro Hall. split.
+      - exact (eats_map B (seq_with ps) (@concat byte) _ (seq_with_eats B ps es Hall)).
+      - exact (strict_map B (seq_with ps) (@concat byte) _ (seq_with_strict B ps es Hall)).
+    Qed.
+
+    Lemma sig_counted B (p : bytes -> res (bytes * bytes)) n es :
+      n = N.of_nat (List.length es) -> (n < 2 ^ 32)%N -> Forall (elem_ok B p) es ->
+      let q := fun bs => do '(m, r) <- read_num 4 bs;
+                         do '(d, r') <- cat_res (rep p m r); ROk (enc_u32 m ++ d, r') in
+      eats B q (enc_u32 n ++ concat es) /\ strict B q (enc_u32 n ++ concat es).
+    Proof.
+      intros Hn Hlt Hes q. subst q. split.
+      - intros rest Hlen. cbv beta. rewrite <- app_assoc, (read_u32_enc n _ Hlt). cbn [bind].
+        destruct (rep_eats B p es Hes rest) as [xs Hxs].
+        { rewrite !app_length in Hlen. rewrite app_length. lia. }
+        subst n. rewrite Hxs. unfold cat_res. cbn [bind]. eexists. reflexivity.
+      - intros k Hk HB. cbv beta.
+        destruct (read_u32_trunc n _ k Hlt Hk) as [[Hlt4 Hr]|[Hge [Hk' Hr]]];
+          rewrite Hr; cbn [bind]; [apply fails_err|].
+        apply fails_bind. unfold cat_res. apply fails_bind. subst n.
+        apply (rep_strict B p es Hes); [exact Hk'|lia].
+    Qed.
+
+    Lemma sig_read_strict : forall v, SQ v.
+    Proof.
+      induction v as [w b|b|s|l IH|kvs IH|l IH|t' v IH] using tval_ind2;
+        intros t fuel B Hwz Hty Hd.
+      - apply has_ty_VNum in Hty as (s & Ht & Hw & Hb). subst t.
+        apply (both_ext B _ _ _ (fun bs => sig_read_num fuel s w bs Hw)).
+        cbn [spec_enc]. rewrite <- (le_length w b) at 1 3.
+        split; [apply take_n_eats|apply take_n_strict].
+      - apply has_ty_VBool in Hty. subst t.
+        apply (both_ext B _ _ _ (sig_read_bool fuel)).
+        split; [apply (take_n_eats B [_])|apply (take_n_strict B [_])].
+      - apply has_ty_VStr in Hty as [Ht Hs]. subst t.
+        apply (both_ext B _ _ _ (sig_read_str fuel)).
+        split; [apply string_reader_eats|apply string_reader_strict]; exact Hs.
+      - apply has_ty_VList in Hty as (t' & Ht & Hn & HF). subst t.
+        cbn [wfz] in Hwz. apply andb_true_iff in Hwz as [Hmw Hwz']. apply Nat.leb_le in Hmw.
+        apply (both_ext B _ _ _ (sig_read_list fuel t')).
+        cbn [spec_enc]. rewrite flat_map_concat_map.
+        apply sig_counted; [now rewrite map_length|exact (lt31_32 _ Hn)|].
+        apply Forall_map. apply Forall_forall. intros x Hin. rewrite Forall_forall in IH, HF.
+        pose proof (dyn_depth_in x l Hin) as Hdx. cbn [dyn_depth] in Hd.
+        destruct (IH x Hin t' fuel B Hwz' (HF x Hin)) as [He Hs]; [lia|].
+        split; [exact He|split; [exact Hs|]].
+        pose proof (min_width_le_len x t' (HF x Hin)) as Hm. lia.
+      - apply has_ty_VMap in Hty as (tk & tv & Ht & Hn & HF). subst t.
+        cbn [wfz] in Hwz. apply andb_true_iff in Hwz as [Hwz Hwv]. apply andb_true_iff in Hwz as [Hmw Hwk].
+        apply Nat.leb_le in Hmw.
+        apply (both_ext B _ _ _ (sig_read_map fuel tk tv)).
+        cbn [spec_enc]. rewrite flat_map_concat_map.
+        apply sig_counted; [now rewrite map_length|exact (lt31_32 _ Hn)|].
+        apply Forall_map. apply Forall_forall. intros kv Hin. rewrite Forall_forall in IH, HF.
+        destruct (IH kv Hin) as [IHk IHv]. destruct (HF kv Hin) as [Htk Htv].
+        pose proof (dyn_depth_in_map kv kvs Hin) as Hdx. cbn [dyn_depth] in Hd.
+        destruct (IHk tk fuel B Hwk Htk) as [Hek Hsk]; [lia|].
+        destruct (IHv tv fuel B Hwv Htv) as [Hev Hsv]; [lia|].
+        split; [|split].
+        + unfold sig_pair. apply (eats_map B _ (fun kv' : bytes * bytes => fst kv' ++ snd kv')).
+          apply pair_with_eats; assumption.
+        + unfold sig_pair. apply (strict_map B _ (fun kv' : bytes * bytes => fst kv' ++ snd kv')).
+          apply pair_with_strict; assumption.
+        + pose proof (min_width_le_len _ _ Htk) as Hm1. pose proof (min_width_le_len _ _ Htv) as Hm2.
+          rewrite app_length. lia.
+      - assert (Hstruct : forall n fs, wfz (TStruct n fs) = true ->
+                  Forall2 (fun x f => has_ty x (snd f) = true) l fs ->
+                  eats B (sig_read parse c fuel (TStruct n fs)) (spec_enc (VTup l)) /\
+                  strict B (sig_read parse c fuel (TStruct n fs)) (spec_enc (VTup l))).
+        { intros n fs Hwz' HF. apply (both_ext B _ _ _ (sig_read_struct fuel n fs)).
+          cbn [spec_enc]. rewrite flat_map_concat_map. cbn [wfz] in Hwz'.
+          apply cat_seq_eats_strict. exact (sig_members (@snd string ty) fuel B l fs IH HF Hwz' Hd). }
+        apply has_ty_VTup in Hty as [(ts & Ht & HF)|[(n & fs & Ht & HF)|[[Ht Hl]|[Ht Ho]]]]; subst t.
+        + apply (both_ext B _ _ _ (sig_read_tuple fuel ts)).
+          cbn [spec_enc]. rewrite flat_map_concat_map. cbn [wfz] in Hwz.
+          apply cat_seq_eats_strict. exact (sig_members (fun t => t) fuel B l ts IH HF Hwz Hd).
+        + apply Hstruct; assumption.
+        + subst l. split.
+          * intros rest Hlen. exists []. destruct fuel; reflexivity.
+          * intros k Hk HB. cbn in Hk. lia.
+        + apply (both_ext B _ _ _ (sig_read_obj fuel)). unfold ty_ObjectReference.
+          apply Hstruct; [exact wfz_ObjectReference|].
+          apply has_ty_struct_iff with (n := "ObjectReference"%string). exact Ho.
+      - apply has_ty_VDyn in Hty as (Ht & Hg & Hlen & Hv). subst t.
+        cbn [dyn_depth] in Hd.
+        assert (Hs : (N.of_nat (List.length (bytes_of_string (print t'))) <= MaxStringSize)%N)
+          by (rewrite length_bytes_of_string; exact Hlen).
+        split.
+        + intros rest Hlen'. cbn [spec_enc] in Hlen' |- *.
+          rewrite !app_length, enc_str_length in Hlen'.
+          destruct fuel as [|f]; [lia|].
+          rewrite sig_read_dyn, <- app_assoc, (read_str_enc _ _ Hs). cbn [bind].
+          rewrite string_of_bytes_of_string, (parse_print t' (good_ty_wf t' Hg)).
+          destruct (IH t' f (B - 1) (good_ty_wfz t' Hg) Hv) as [He _]; [lia|].
+          destruct (He rest) as [d Hd']; [rewrite app_length; lia|].
+          rewrite Hd'. cbn [bind]. eexists. reflexivity.
+        + intros k Hk HB. destruct fuel as [|f]; [lia|].
+          rewrite sig_read_dyn. cbn [spec_enc] in Hk |- *.
+          destruct (read_str_trunc B _ _ k Hs Hk HB) as [Hf|[Hge [Hk' Hr]]].
+          * apply fails_bind. exact Hf.
+          * rewrite Hr. cbn [bind]. rewrite string_of_bytes_of_string, (parse_print t' (good_ty_wf t' Hg)).
+            apply fails_bind. rewrite enc_str_length in Hge, Hk' |- *.
+            destruct (IH t' f (B - 1) (good_ty_wfz t' Hg) Hv) as [_ Hst]; [lia|].
+            apply Hst; [exact Hk'|lia].
+    Qed.
+
+    Lemma sig_read_prefix_gen : forall v t fuel k,
+      good_ty t = true -> has_ty v t = true -> Nat.min (dyn_depth v) (S k) <= fuel ->
+      k < List.length (spec_enc v) -> fails (sig_read parse c fuel t (firstn k (spec_enc v))).
+    Proof.
+      intros v t fuel k Hg Hty Hd Hk.
+      destruct (sig_read_strict v t fuel (S k) (good_ty_wfz t Hg) Hty Hd) as [_ Hst].
+      apply Hst; [exact Hk|lia].
+    Qed.
+  End SigStrict.
+
+  Theorem sig_read_prefix : forall v t fuel k,
+    string_reader_drops_err c = false ->
+    good_ty t = true -> has_ty v t = true -> dyn_depth v <= fuel ->
+    k < List.length (spec_enc v) -> fails (sig_read parse c fuel t (firstn k (spec_enc v))).
+  Proof.
+    intros v t fuel k Hdrop Hg Hty Hd Hk. apply sig_read_prefix_gen; try assumption. lia.
+  Qed.
 End P.
